@@ -131,7 +131,7 @@ func newC09Rig(bin bool) (*c09Rig, error) {
 		Name: "svc.test",
 		Listens: []labListenCfg{
 			{Addr: ip(1), UDPPort: 5060, TCPPort: 5060, Backends: []string{"udp://" + ip(31) + ":5080", "udp://" + r.pools[0] + ":5080"}},
-			{Addr: ip(2), UDPPort: 5062, TCPPort: 5063, Backends: []string{"tcp://" + ip(33) + ":5080", "udp://" + r.pools[1] + ":5080"}},
+			{Addr: ip(2), UDPPort: 5062, TCPPort: 5063, Backends: []string{"tcp://" + ip(33) + ":5080", "tcp://" + r.pools[1] + ":5080"}}, // a dynamically resolved pool of TCP backends
 			{Addr: ip(3), UDPPort: 5064, Backends: []string{"udp://" + ip(34) + ":5080", "udp://" + ip(35) + ":5080"}},
 		},
 	}
@@ -145,7 +145,11 @@ func newC09Rig(bin bool) (*c09Rig, error) {
 	}
 	for pi, pool := range r.poolIPs {
 		for _, a := range pool {
-			if err := r.udpBackend(a, 5080); err != nil {
+			mk := r.udpBackend
+			if pi == 1 {
+				mk = r.tcpBackend
+			}
+			if err := mk(a, 5080); err != nil {
 				return nil, err
 			}
 			r.backendOf[a+":5080"] = pi
